@@ -54,6 +54,8 @@ def o_split(inp):
     if wf_violations(timed):
         return [("~skip:ill-formed", "")]
     state = inp.get("state", "rel")
+    if state != "rel" and any(on >= off for (_, _, on, off, _) in notes_of(timed)):
+        return [("~skip:zero-length-note-through-the-absolute-view", "")]      # D17's mechanism, not split's
     s = P.seq_in_state(rel, state)
     if state == "rel":
         before_rel = [from_real(m) for m in s.rel._messages]
